@@ -1133,3 +1133,52 @@ PROPS["C11"] = {
     "cases": c11_cases,
     "explanation": "oracle: the creation trace (tag, props in order with repeated class/style/listeners at their first position, then children of non-component hosts; a sole call child of a component once) and the default-slot trace of every element, computed from the denotation of the input, equal those computed from the evaluation of the real output (temporaries substituted only when assigned exactly once inside the _isSlot test); directive expressions once each",
 }
+
+
+# ---- C16-C19 -----------------------------------------------------------------------------------------------
+def ts_cases(pid, casefn, tier, seed, n_quick, n_thorough, extra=None):
+    r = gen.Rng(seed)
+    run = corpus_cases(pid) + fixture_cases(lambda c: c["tsx"])
+    hist = collections.Counter()
+    for i in range(budget(tier, n_quick, n_thorough)):
+        src, used = casefn(r, i)
+        hist.update(used)
+        run.append({"id": "t%d" % i, "src": src, "tsx": True, "opts": {"resolveType": True, "optimize": r.chance(0.3)}})
+    for j, e in enumerate(extra or []):
+        run.append({"id": "x%d" % j, "src": "import { defineComponent } from 'vue';\nconst dflt = {};\n" + e + "\n", "tsx": True, "opts": {"resolveType": True}})
+    return run, hist
+
+
+def c16_cases(tier, seed):
+    run, hist = ts_cases("C16", tsgen.c16_case, tier, seed, 2500, 60000, tsgen.UNRESOLVABLE)
+    return [], run, {"rule": "TSX fixtures + %d generated calls: a random finite prop map (identifier / quoted / hyphenated keys; properties, methods, getters; optional flags) encoded by recursively partitioning and wrapping it with literal, alias (also exported), interface, merged interfaces, extends, intersection, parentheses, Partial, Required, Pick/Omit with literal-union keys (also through an alias), indexed access through alias/interface/literal, with every declaration placed before OR after the call (25%%) and the whole in module, function or block scope (shadowing); + 12 unresolvable / unsupported types that must be reported" % (len(run) - 12),
+                     "histogram": dict(hist.most_common(40))}
+
+
+def c17_cases(tier, seed):
+    run, hist = ts_cases("C17", tsgen.c17_case, tier, seed, 2500, 60000)
+    return [], run, {"rule": "TSX fixtures + generated calls whose props have types from a 46-entry atom table (keywords, literal types incl. bigint and template, function/constructor types, arrays, tuples, object types with call/construct signatures, built-in classes, unknown references, utility wrappers) combined by union, intersection, alias and interface indirection, parentheses, NonNullable/Exclude/Extract, array/tuple/property indexing, nested to depth 3",
+                     "histogram": dict(hist.most_common(40))}
+
+
+def c18_cases(tier, seed):
+    run, hist = ts_cases("C18", tsgen.c18_case, tier, seed, 2500, 60000)
+    return [], run, {"rule": "TSX fixtures + generated calls: random prop maps (incl. Function-typed props) x default objects mixing literal, expression, shorthand, getter, method, async method, quoted and computed-literal keys, extra keys, and the dynamic forms (identifier, spread, computed identifier key, computed expression key)",
+                     "histogram": dict(hist.most_common(40))}
+
+
+def c19_cases(tier, seed):
+    run, hist = ts_cases("C19", tsgen.c19_case, tier, seed, 2500, 60000)
+    return [], run, {"rule": "TSX fixtures + generated calls: event-name sets (incl. names with `:` and `-`) encoded as function types, unions of function types, literal-union first parameters (also through an alias), call-signature literals, interfaces, extends chains, property syntax, aliases (also exported), intersections, declarations before or after the call; second parameter as identifier or destructuring pattern, with or without SetupContext",
+                     "histogram": dict(hist.most_common(40))}
+
+
+_has_dc = lambda c, r: "defineComponent(" in c["src"]
+PROPS["C16"] = {"theorems": ['C16_literal', 'C16_alias', 'C16_paren', 'C16_partial_required_flags', 'C16_partial_sets_optional', 'C16_pick_omit_partition', 'C16_required_iff_not_optional', 'C16_imported_type_reported', 'C16_unknown_global_reported', 'C16_unsupported_construct_reported', 'aliasHook_registers', 'C16_registry_from_whole_module'], "cases": c16_cases, "nontrivial": _has_dc,
+                "explanation": "oracle: the set-theoretic meaning of the annotated props type over the WHOLE module's declarations (TypeSpec.propsOfType) = the keys and `required` flags of the injected props; a type outside the grammar must be reported"}
+PROPS["C17"] = {"theorems": ['C17_keyword_table', 'C17_structural_table', 'C17_literal_table', 'C17_builtin_class', 'C17_union_order', 'inferRuntime_eq_rt', 'rt_sound', 'C17_soundness', 'C17_emitted_no_stricter', 'C17_soundness_emitted', 'C17_null_kept', 'C17_boolean_string_order'], "cases": c17_cases, "nontrivial": _has_dc,
+                "explanation": "oracle: the JavaScript constructors of the declared type (TypeSpec.ctorsOfType; any/unknown = no check) = those of the emitted `type`, Boolean/String order kept"}
+PROPS["C18"] = {"theorems": ['C18_literal_as_is', 'C18_expression_through_factory', 'C18_function_prop_gets_value', 'C18_function_prop_gets_written_function', 'C18_shorthand', 'C18_getter', 'C18_method_is_the_function', 'C18_key_spellings_match', 'C18_dynamic_forms', 'C18_one_dynamic_entry_suffices', 'C18_dynamic_goes_through_mergeDefaults', 'C18_no_default_no_entry'], "cases": c18_cases, "nontrivial": _has_dc,
+                "explanation": "oracle: every statically written default reaches its prop's `default` as the value itself (literals, methods, Function-typed props) or as a factory returning it; non-analysable defaults go through mergeDefaults unchanged"}
+PROPS["C19"] = {"theorems": ['C19_no_second_parameter', 'C19_unannotated_second_parameter', 'C19_other_annotation', 'C19_not_a_function', 'C19_literal_union_expansion', 'C19_literal_union_through_alias', 'C19_call_signatures', 'C19_function_type', 'C19_property_syntax'], "cases": c19_cases, "nontrivial": _has_dc,
+                "explanation": "oracle: the event names the SetupContext<E> annotation declares (TypeSpec.emitsOfType, as a set) = the injected emits; no emits without such an annotation"}
